@@ -317,7 +317,7 @@ class Tie:
                                stdout=f, stderr=subprocess.PIPE, text=True, env=goenv())
         return p.returncode == 0, p.stderr
 
-    def execute(self, timeout, env=None):
+    def execute(self, timeout, env=None, stateless=False):
         """run implementation and model over the ops file.  A harness process that dies (a panic in
         a goroutine of the code under test cannot be recovered) is restarted at the next case: the
         line it died on gets the output `<crash>`, the rest of that case `<skipped>`."""
@@ -350,7 +350,8 @@ class Tie:
             crashes += 1
             outs.append("<crash>")
             pos += 1
-            nxt = next((s for s in starts if s >= pos), len(ops))
+            # (in a stateless suite every line is its own case)
+            nxt = pos if stateless else next((s for s in starts if s >= pos), len(ops))
             outs += ["<skipped>"] * (nxt - pos)
             pos = nxt
             if crashes == 1:
